@@ -168,21 +168,7 @@ func TestInspectReachesAllLongChains(t *testing.T) {
 
 func TestInspectReachesAll(t *testing.T) {
 	hx.Rule("inspect_reaches_all", "trees parsed from G-SQL statements (incl. MERGE and DDL) and from chains of several hundred operators / UNIONs / casts / subscripts / joins / CTEs (left-deep trees without textual nesting); multiset of (type, content) of nodes ast.Inspect visits must equal the multiset of node-typed values reachable by reflection through every exported field; non-trivial = >= 3 distinct node types below statement level; distinct = node type set + size")
-	treeCheck.Rapid(t, hx.N(100000, 1000000), func(rt *rapid.T) TreeCase {
-		g := sqlgen.New(rt, features())
-		st := sqlgen.Statement(g)
-		sql := sqlgen.SQL(st.Toks)
-		types := map[string]bool{}
-		reflectx.Reachable(reflect.ValueOf(st.Node), func(v reflect.Value) { types[v.Type().Name()] = true })
-		var ts []string
-		for k := range types {
-			ts = append(ts, k)
-		}
-		sort.Strings(ts)
-		hx.Case("inspect_reaches_all", len(ts) >= 4, strings.Join(ts, ",")+fmt.Sprint(len(st.Toks)/4))
-		hx.Sample("inspect_reaches_all", sql)
-		return TreeCase{SQL: sql}
-	})
+	treeCheck.Rapid(t, hx.N(100000, 1000000), genInspectReachesAll)
 }
 
 // ---------------------------------------------------------------- structural sweep over (node type, node-holding field)
@@ -378,3 +364,23 @@ func TestChildrenCoverFields(t *testing.T) {
 	hx.Exhaustive("children_cover_fields", true)
 	t.Logf("fields examined %d, node-holding %d", n, planted)
 }
+
+// genInspectReachesAll is the case generator of treeCheck (shared by the rapid run and the native fuzz target).
+func genInspectReachesAll(rt *rapid.T) TreeCase {
+	g := sqlgen.New(rt, features())
+	st := sqlgen.Statement(g)
+	sql := sqlgen.SQL(st.Toks)
+	types := map[string]bool{}
+	reflectx.Reachable(reflect.ValueOf(st.Node), func(v reflect.Value) { types[v.Type().Name()] = true })
+	var ts []string
+	for k := range types {
+		ts = append(ts, k)
+	}
+	sort.Strings(ts)
+	hx.Case("inspect_reaches_all", len(ts) >= 4, strings.Join(ts, ",")+fmt.Sprint(len(st.Toks)/4))
+	hx.Sample("inspect_reaches_all", sql)
+	return TreeCase{SQL: sql}
+}
+
+// FuzzInspectReachesAll: coverage-guided search over the same generator (thorough tier).
+func FuzzInspectReachesAll(f *testing.F) { treeCheck.Fuzz(f, genInspectReachesAll) }
